@@ -84,6 +84,8 @@ static ABORT_NOTE: Mutex<(Option<String>, i64)> = Mutex::new((None, -1));
 /// Number of executions started so far (watchdog: an execution that makes no scheduling
 /// decision and never ends - an endless loop inside the real code - stops this counter).
 static STARTED: std::sync::atomic::AtomicU64 = std::sync::atomic::AtomicU64::new(0);
+/// Set while no execution is in flight (writing results): the watchdog stands down.
+static IDLE: std::sync::atomic::AtomicBool = std::sync::atomic::AtomicBool::new(false);
 
 /// A real OS thread outside the simulation: if no execution starts or ends for `secs` seconds
 /// the process is inside one execution that does not come back to the scheduler. The abort
@@ -96,6 +98,10 @@ fn start_watchdog(secs: u64) {
         loop {
             std::thread::sleep(std::time::Duration::from_millis(500));
             let now = STARTED.load(std::sync::atomic::Ordering::Relaxed);
+            if IDLE.load(std::sync::atomic::Ordering::Relaxed) {
+                since = std::time::Instant::now();
+                continue;
+            }
             if now != last {
                 last = now;
                 since = std::time::Instant::now();
@@ -456,6 +462,7 @@ pub fn main_for<S: Scenario>() {
     if let Some(p) = &trace_path {
         std::fs::write(p, trace_lines).unwrap();
     }
+    IDLE.store(true, std::sync::atomic::Ordering::Relaxed);
     if let Some(p) = arg(&args, "--hash-out") {
         // distinct non-trivial (scenario, trace) hashes, for exact merging across workers
         let cap: usize = arg(&args, "--hash-cap").map(|s| s.parse().unwrap()).unwrap_or(4_000_000);
@@ -474,7 +481,9 @@ pub fn main_for<S: Scenario>() {
             // panic inside an extern "C" runtime entry cannot unwind (the process aborts)
             std::fs::write(p, serde_json::to_string_pretty(&rep).unwrap()).unwrap();
         }
+        IDLE.store(false, std::sync::atomic::Ordering::Relaxed);
         let rep = if arg(&args, "--no-minimise").is_some() { rep } else { minimise(rep, stats.clone()) };
+        IDLE.store(true, std::sync::atomic::Ordering::Relaxed);
         let text = serde_json::to_string_pretty(&rep).unwrap();
         if let Some(p) = &out_path {
             std::fs::write(p, &text).unwrap();
